@@ -13,6 +13,7 @@ import (
 	"github.com/openconfig/goyang/pkg/yang"
 	"verif/mc/core"
 	"verif/mc/dump"
+	"verif/mc/props/scalekit"
 )
 
 type text struct {
@@ -64,8 +65,9 @@ func opName(o int) string {
 }
 
 type Input struct {
-	History []string `json:"history"`
-	Ops     []int    `json:"ops"`
+	History []string       `json:"history"`
+	Ops     []int          `json:"ops"`
+	Scale   *scalekit.Case `json:"scale,omitempty"`
 }
 
 type fail struct{ fp, exp, obs string }
@@ -244,7 +246,7 @@ func shards(tier string) []string {
 			out = append(out, fmt.Sprintf("h/%d/%d", a, b))
 		}
 	}
-	return out
+	return append(out, scalekit.ShardNames()...)
 }
 
 func describe(h []int) Input {
@@ -256,10 +258,14 @@ func describe(h []int) Input {
 }
 
 func run(c *core.Ctx) {
+	if strings.HasPrefix(c.Shard, "scale/") {
+		scalekit.Run(c, c.Shard, scaleCases(c.Tier), checkScale, func(cs scalekit.Case) any { return Input{Scale: &cs} })
+		return
+	}
 	var a, b int
 	fmt.Sscanf(c.Shard, "h/%d/%d", &a, &b)
 	D := depth(c.Tier)
-	c.Res.Bound = fmt.Sprintf("all histories of %d operations over {process, getmodule(g), read, load(t) for %d texts} (every shorter history ending in process is a checked prefix)", D, len(pool))
+	c.Res.Bound = fmt.Sprintf("all histories of %d operations over {process, getmodule(g), read, load(t) for %d texts} (every shorter history ending in process is a checked prefix); scale: a module with 1..24 (65) imports or submodules loaded without one of them, processed, read, completed and processed again", D, len(pool))
 	all := ops()
 	h := []int{a, b}
 	n := 0
@@ -338,6 +344,10 @@ func replay(tier string, raw json.RawMessage) (bool, string, string) {
 	var in Input
 	if err := json.Unmarshal(raw, &in); err != nil {
 		return false, "", err.Error()
+	}
+	if in.Scale != nil {
+		v := checkScale(*in.Scale)
+		return v.Fp != "", "scale:" + v.Fp, fmt.Sprintf("expected %s\nobserved %s", v.Exp, v.Obs)
 	}
 	f, _, _ := runHistory(in.Ops)
 	if f == nil {
